@@ -25,7 +25,7 @@
         Server/RefineBind.v (binders / unbinders), Server/RefineAll.v (assembly). *)
 From Coq Require Import NArith ZArith List String Bool.
 From P9V Require Import Base.Str gen.ConstGen gen.HandlerGen Server.State Server.Msg Server.SessionSpec Server.Handlers
-  Server.Summaries Server.NameProofs Server.SummaryProofs Server.SpecProofs Server.FaultProofs Server.Ledger Server.Refine Server.TableFrame Server.RefineOk Server.TableInj Server.ViewFrame Server.RefineBind Server.RefineAll.
+  Server.Summaries Server.NameProofs Server.SummaryProofs Server.SpecProofs Server.FaultProofs Server.Ledger Server.Refine Server.TableFrame Server.RefineOk Server.TableInj Server.ViewFrame Server.RefineBind Server.RefineAll Server.OpenPar.
 Import ListNotations.
 Open Scope N_scope.
 
@@ -262,6 +262,36 @@ Proof.
   - intros c' f' HT. apply other_fids_untouched; assumption.
 Qed.
 Print Assumptions C04_refusals_and_frame.
+
+(** ---- "a fid opens at most once" for requests IN FLIGHT TOGETHER (Server/OpenPar.v) ----
+    Any number of Tlopen requests on one fid ([reqs] = their flags), interleaved in any way, with any
+    File.Open answers [tape], from a fid that is opened or not ([opened0]) and of a type that can be
+    opened or not ([co]): in every reachable state at most one request has been answered Rlopen (none
+    when the fid was opened before), at most one thread is inside File.Open, and no File.Open call was
+    ever started on an opened fid.  The thread program is tlopen.handle's: openMu taken first. *)
+Theorem C04_open_once_interleaved : forall co opened0 flags0 tape reqs s,
+  reach true co (start opened0 flags0 tape reqs) s ->
+  (cnt succeeded (p_thr s) <= 1)%nat /\
+  (opened0 = true -> cnt succeeded (p_thr s) = 0%nat) /\
+  (cnt in_open (p_thr s) <= 1)%nat /\
+  p_bad s = 0%nat.
+Proof. exact open_once_interleaved. Qed.
+Print Assumptions C04_open_once_interleaved.
+(** the position of the lock is what the theorem rests on: with openMu taken AFTER the test of ref.opened
+    two requests are both answered Rlopen and File.Open is started on an opened fid (a reachable state) *)
+Theorem C04_open_once_needs_lock_before_check_refuted :
+  exists s, reach false true (start false 0 [] [0; 2]) s /\ cnt succeeded (p_thr s) = 2%nat /\ p_bad s = 1%nat.
+Proof. exact open_once_check_first_refuted. Qed.
+(** ... and that position is read from the source on every run: in tlopen.handle the Lock of openMu and its
+    deferred Unlock precede the first test of [opened], which precedes the File.Open call *)
+Theorem C04_source_tlopen_lock_first : tlopen_lock_first_in handler_traces_alpha = true.
+Proof. exact tlopen_locks_before_guards. Qed.
+(** what the harness compares an observed overlap with ([par_agrees]: some schedule of this model) satisfies
+    the property the harness evaluates on the observation ([par_ok]: at most one Rlopen) *)
+Theorem C04_overlap_model_ok : forall fa fb tape sch l,
+  final_replies (exec true true (start false 0 tape [fa; fb]) sch) = Some l ->
+  (List.length (filter is_ok l) <= 1)%nat.
+Proof. exact model_outcome_ok. Qed.
 
 (** ---- the source ---- *)
 Theorem C04_source_matches_model : handler_traces_alpha = model_traces.
